@@ -32,6 +32,13 @@ Definition is_monotonic_labels (l : list label) : bool :=
   strictly label_ltb l || strictly (fun a b => label_ltb b a) l.
 Definition slope_up (l : list label) : bool :=      (* a[-1] >= a[0] *)
   match l with [] => true | x :: _ => label_le x (last l x) end.
+(* the direction of a monotonic axis; a single label has none *)
+Definition slope (l : list label) : option bool :=
+  match l with [] | [_] => None | _ => Some (slope_up l) end.
+Definition same_slope (a b : list label) : bool :=
+  match slope a, slope b with Some x, Some y => Bool.eqb x y | _, _ => true end.
+Definition slopes_down (a b : list label) : bool :=
+  match slope a, slope b with Some u, _ => negb u | None, Some u => negb u | None, None => false end.
 
 (* sorted union without duplicates: np.union1d *)
 Fixpoint insert_uniq (x : label) (l : list label) : list label :=
@@ -57,9 +64,9 @@ Definition axis_union (a b : axis) : axis :=
   else
     let joined :=
       if consistent && is_monotonic_labels (alab a) && is_monotonic_labels (alab b)
-         && Bool.eqb (slope_up (alab a)) (slope_up (alab b))
+         && same_slope (alab a) (alab b)
       then let u := union1d (alab a) (alab b) in
-           if label_le (last (alab a) LNone) (hd LNone (alab a)) then rev u else u
+           if slopes_down (alab a) (alab b) then rev u else u
       else alab a ++ filter (fun l => negb (mem_label l (alab a))) (alab b) in
     ax_new (aname a) k joined (aattrs a).
 
